@@ -10,17 +10,17 @@ ENV = None
 #  pred: name of the executable trace predicate in the Lean driver
 #  module: Lean module with the property theorems (HLV/Props/<module>.lean)
 PROPS = {
-    "C01": dict(families=["order", "acq", "hist"], pred="C01"),
-    "C02": dict(families=["route", "acq", "panic"], pred="C02"),
-    "C03": dict(families=["acq", "panic", "fault", "hist"], pred="C03"),
+    "C01": dict(families=["conc", "order", "acq", "hist"], pred="C01"),
+    "C02": dict(families=["conc", "route", "acq", "panic"], pred="C02"),
+    "C03": dict(families=["acq", "panic", "fault", "hist", "poison"], pred="C03"),
     "C04": dict(families=["acq"], pred="C04"),
-    "C05": dict(families=["acq", "panic", "fault"], pred="C05"),
+    "C05": dict(families=["acq", "panic", "fault", "conc", "nonacq", "poison"], pred="C05"),
     "C06": dict(families=["hist", "panic", "acq"], pred="C06"),
     "C07": dict(families=["trynew"], pred="C07"),
     "C08": dict(families=["order", "acq"], pred="C08"),
     "C09": dict(families=["acq", "fault"], pred="C09"),
-    "C10": dict(families=["poison", "panic"], pred="C10"),
-    "C11": dict(families=["panic"], pred="C11"),
+    "C10": dict(families=["poison", "panic", "conc"], pred="C10"),
+    "C11": dict(families=["panic", "poison"], pred="C11"),
     "C12": dict(families=["fault"], pred="C12"),
     "C13": dict(families=["quiet", "acq"], pred="C13"),
     "C17": dict(families=["nonacq"], pred="C17"),
@@ -114,13 +114,18 @@ def run_family(fam, tier, seed, key):
     if not os.path.exists(done):
         shutil.rmtree(d, ignore_errors=True)
         os.makedirs(d)
-        exe = os.path.join(BUILD, "cargo", "release", "t1gen")
-        rc, out = sh([exe, fam, tier, str(seed), d], timeout=3000)
+        if fam == "conc":
+            # T2: real threads under the baton scheduler, every schedule (DFS, capped) of each case
+            exe = os.path.join(BUILD, "cargo", "release", "t2gen")
+            rc, out = sh([exe, tier, str(seed), d], timeout=3000)
+        else:
+            exe = os.path.join(BUILD, "cargo", "release", "t1gen")
+            rc, out = sh([exe, fam, tier, str(seed), d], timeout=3000)
         if rc != 0:
-            return dict(error=f"t1gen {fam} crashed (rc={rc}): {out[-2000:]}", dir=d)
+            return dict(error=f"{os.path.basename(exe)} {fam} crashed (rc={rc}): {out[-2000:]}", dir=d)
         drv = os.path.join(ROOT, "lean", ".lake", "build", "bin", "hlv-driver")
         with open(os.path.join(d, fam + ".cases")) as fi, open(os.path.join(d, fam + ".model"), "w") as fo:
-            p = subprocess.run([drv], stdin=fi, stdout=fo, env=ENV)
+            p = subprocess.run([drv] + (["t2"] if fam == "conc" else []), stdin=fi, stdout=fo, env=ENV)
         if p.returncode != 0:
             return dict(error=f"model driver failed on {fam}", dir=d)
         open(done, "w").write("ok")
@@ -132,6 +137,9 @@ def run_pred(pred, cases_path, impl_path):
     drv = os.path.join(ROOT, "lean", ".lake", "build", "bin", "hlv-driver")
     c = open(cases_path).read().splitlines()
     t = open(impl_path).read().splitlines()
+    if os.path.basename(cases_path) == "conc.cases":
+        p = subprocess.run([drv, "t2check", pred], input="\n".join(x + "\n" + y for x, y in zip(c, t)) + "\n", stdout=subprocess.PIPE, text=True, env=ENV)
+        return [(i, l) for i, l in enumerate(p.stdout.splitlines()) if l != "ok"], len(c)
     inp = "\n".join(x + "\n" + y for x, y in zip(c, t)) + "\n"
     p = subprocess.run([drv, "check", pred], input=inp, stdout=subprocess.PIPE, text=True, env=ENV)
     fails = []
@@ -667,7 +675,7 @@ def t1_property(pid, tier, seed, replay):
                   timings={k: v for k, v in evidence.items() if k.endswith("_s")},
               ),
               assumptions=["the model's atomic leaf step (killed test + lock_api call + handle_unwind) abstracts three Rust statements",
-                           "T1 runs are single-threaded: other threads appear only through answers (pre-held locks, scripted refusals/faults)"],
+                           "T1 runs are single-threaded: other threads appear only through answers (pre-held locks, scripted refusals/faults); family conc (T2, where listed in distribution) runs 2-3 real threads serialised at raw-lock operations by a baton scheduler, reader-preferring table, no faults"],
               wall_s=round(wall, 1), violations=(1 if rc else 0))
     os.makedirs(os.path.join(ROOT, "evidence"), exist_ok=True)
     json.dump(ev, open(os.path.join(ROOT, "evidence", pid + ".json"), "w"), indent=1)
@@ -684,6 +692,19 @@ def do_replay(pid, cfg, path):
         print(json.dumps(j, indent=1)); return 0
     ok, out, dt = build_harness()
     lean_build(["hlv-driver"])
+    if ";T=" in case:
+        # a T2 case: re-run the real threads under the recorded schedule, and the model
+        exe = os.path.join(BUILD, "cargo", "release", "t2gen")
+        drv = os.path.join(ROOT, "lean", ".lake", "build", "bin", "hlv-driver")
+        pa = subprocess.run([exe, "--replay", case], stdout=subprocess.PIPE, text=True, env=ENV)
+        lines = pa.stdout.splitlines()
+        impl = lines[1] if len(lines) > 1 else ""
+        pb = subprocess.run([drv, "t2"], input=(lines[0] if lines else case) + "\n", stdout=subprocess.PIPE, text=True, env=ENV)
+        model = pb.stdout.strip()
+        pc = subprocess.run([drv, "t2check", cfg["pred"]], input=(lines[0] if lines else case) + "\n" + impl + "\n", stdout=subprocess.PIPE, text=True, env=ENV)
+        print("case :", lines[0] if lines else case); print("impl :", impl); print("model:", model)
+        print("predicate", cfg["pred"], ":", pc.stdout.strip())
+        return 1 if pc.stdout.strip() != "ok" or impl != model else 0
     a, b, rc = run_cases_once([case])
     print("case :", case)
     print("impl :", a[0] if a else None)
